@@ -48,35 +48,51 @@ package patch
 // Comments are only ever removed, and only those lying entirely inside a changed interval; the lines they
 // occupied are merged (C17). No comment is added, moved or duplicated here.
 //@ func cleanupFilePos(tfile, cl, comments) (kept)
+//@   unfold tfile != nil
+//@   unfold forall i int {comments[i]} :: 0 <= i && i < len(comments) ==> comments[i] != nil && allocated(arr(comments[i].List)) && forall j int {comments[i].List[j]} :: 0 <= j && j < len(comments[i].List) ==> comments[i].List[j] != nil
 //@   ensures [C08,C17] no-group-without-comments-stays-in-the-files-list: forall j int {kept[j]} :: 0 <= j && j < len(kept) ==> len(kept[j].List) > 0
 //@   ensures [C17] the-kept-groups-are-a-list-of-their-own: arr(kept) == 0 || fresh(arr(kept))
 //@   ensures [C17] no-group-is-added: len(kept) <= len(comments)
 //@   at call (*go/token.File).MergeLine assert [C08,C17] only-physical-lines-are-merged: isPhysLine(tfile, arg1)
 //@   assigns allof("F.S_ast_CommentGroup.List")
 //@   loop 0
+//@     invariant forall i int {comments[i]} :: 0 <= i && i < len(comments) ==> comments[i] != nil
+//@     invariant forall i int {comments[i]} :: 0 <= i && i < len(comments) ==> forall j int {comments[i].List[j]} :: 0 <= j && j < len(comments[i].List) ==> comments[i].List[j] != nil
+//@     invariant forall i int {comments[i]} :: 0 <= i && i < len(comments) ==> allocated(arr(comments[i].List))
 //@     invariant linesToDelete != nil
 //@     invariant [C08,C17] only-physical-lines-are-merged: forall n int {has(linesToDelete, n)} :: has(linesToDelete, n) ==> isPhysLine(tfile, n)
 //@   loop 1
+//@     invariant forall i int {comments[i]} :: 0 <= i && i < len(comments) ==> comments[i] != nil
 //@     invariant linesToDelete != nil
 //@     invariant [C08,C17] only-physical-lines-are-merged: forall n int {has(linesToDelete, n)} :: has(linesToDelete, n) ==> isPhysLine(tfile, n)
 //@     invariant [C08,C17] physLine(tfile, dr.Start) <= i && (dr.Start != 0 ==> isPhysLine(tfile, physLine(tfile, dr.Start)))
 //@     decreases physLine(tfile, dr.End) - i
 //@   loop 2
+//@     invariant forall i int {comments[i]} :: 0 <= i && i < len(comments) ==> comments[i] != nil
+//@     invariant forall i int {comments[i]} :: 0 <= i && i < len(comments) ==> forall j int {comments[i].List[j]} :: 0 <= j && j < len(comments[i].List) ==> comments[i].List[j] != nil
+//@     invariant forall i int {comments[i]} :: 0 <= i && i < len(comments) ==> allocated(arr(comments[i].List))
 //@     invariant linesToDelete != nil
 //@     invariant [C08,C17] only-physical-lines-are-merged: forall n int {has(linesToDelete, n)} :: has(linesToDelete, n) ==> isPhysLine(tfile, n)
 //@   loop 3
+//@     invariant forall i int {comments[i]} :: 0 <= i && i < len(comments) ==> comments[i] != nil
+//@     invariant forall i int {comments[i]} :: 0 <= i && i < len(comments) ==> forall j int {comments[i].List[j]} :: 0 <= j && j < len(comments[i].List) ==> comments[i].List[j] != nil
+//@     invariant forall j int {list[j]} :: 0 <= j && j < len(list) ==> list[j] != nil
+//@     invariant forall i int {comments[i]} :: 0 <= i && i < len(comments) ==> allocated(arr(comments[i].List)) && (arr(list) == 0 || arr(comments[i].List) != arr(list))
 //@     unfold keptLen(cg.List, dr.Start, dr.End, 0) == 0
 //@     unfold keptLen(cg.List, dr.Start, dr.End, #k + 1) == keptLen(cg.List, dr.Start, dr.End, #k) + ite(cPos(cg.List[#k]) >= dr.Start && cEnd(cg.List[#k]) <= dr.End, 0, 1)
 //@     invariant [C17] only-comments-inside-a-changed-interval-are-dropped: len(list) == keptLen(cg.List, dr.Start, dr.End, #k)
 //@     invariant [C17] comments-only-shrink: len(list) <= #k
 //@     invariant list.arr == 0 || fresh(list.arr)
 //@   loop 4
+//@     invariant forall i int {comments[i]} :: 0 <= i && i < len(comments) ==> comments[i] != nil
 //@     invariant fresh(lines.arr)
 //@     invariant [C08,C17] only-physical-lines-are-merged: forall j int {lines[j]} :: 0 <= j && j < len(lines) ==> isPhysLine(tfile, lines[j])
 //@   loop 5
+//@     invariant forall i int {comments[i]} :: 0 <= i && i < len(comments) ==> comments[i] != nil
 //@     invariant [C08,C17] i < len(lines) && forall j int {lines[j]} :: 0 <= j && j < len(lines) ==> isPhysLine(tfile, lines[j])
 //@     decreases i + 1
 //@   loop 6
+//@     invariant forall i int {comments[i]} :: 0 <= i && i < len(comments) ==> comments[i] != nil
 //@     invariant [C08,C17] forall j int {kept[j]} :: 0 <= j && j < len(kept) ==> len(kept[j].List) > 0
 //@     invariant [C17] len(kept) <= #k
 //@     invariant arr(kept) == 0 || fresh(arr(kept))
